@@ -112,6 +112,11 @@ LEVEL_NOTE = ("Unmodelled: soundfile I/O, scipy's STFT / resample numerics, nump
               "argument). That every load opens the file as it is on disk now (no handle, header or content kept per "
               "path) is likewise observed, on generated histories in which the harness rewrites the file between loads "
               "(operation file_history, judged by the Lean file-system model). Slices / copies are xarray's (`isel`, `copy`), modelled as the corresponding part of the axis. "
+              "Arrays whose time coordinate has no 'step' attribute (hand-built, assign_coords, arithmetic on the "
+              "coordinate) are modelled as copies of their source (the code estimates the mean spacing; the model is "
+              "compared where that float product lies in the exact product's integer cell); strided selections of them "
+              "and `filter` calls have no Lean step: they and what is derived from them are monitored only (axisOk on "
+              "resampled results, `filter`: output axis = input axis, no call writes into its argument). "
               "Numeric argument types (int, float, numpy float64 / float32 / int64 / int32) and construction paths "
               "(constructor, model_validate, JSON, model_copy, assignment) are exercised, not modelled: the model sees "
               "the value.")
